@@ -13,7 +13,7 @@ package zkaffp
 //@ func (*Proof).Verify
 //@   use bits
 //@   nopanic[C05]
-//@   modifies hstate(hash)
+//@   modifies hstate(hash), wlog(hash.h)
 //@   requires group != nil && hash != nil && hash.h != nil && true && true && true && true && pkok(public.Prover) && pkvals(public.Prover) && pkbig(public.Prover) && pkok(public.Verifier) && pkvals(public.Verifier) && pkbig(public.Verifier) && pedok(public.Aux)
 
 //@ func challenge
